@@ -68,6 +68,19 @@ ENTRIES = {
                 "sockets are assumed; TLS streams are covered under C12.",
         "design_ref": "DESIGN.md §5 C18",
     },
+    "C12": {
+        "text": "Theorems for every scheme string, host string, peer behaviour, ALPN offer and TLS configuration: with a TLS "
+                "configuration and an https/wss scheme in any spelling the model of TlsTransport::call + TlsTransportWrapper::call + "
+                "TlsConnectionFuture never returns an unwrapped stream, never lets anything but TLS records reach the wire, returns a "
+                "stream only after a handshake with a trusted certificate covering the URI host with that host as SNI, turns every "
+                "handshake/verification failure and every host rustls rejects as a server name into an error, leaves other schemes "
+                "unwrapped, never panics. Tied to the real TlsTransport with real rustls on both ends of a duplex, raw bytes inspected "
+                "at the peer, on an exhaustive scheme x host x peer grid plus random cases every run.",
+        "note": "Trusted: Lean kernel; rustls' handshake and name validation are assumptions of the model (its verdict on the host "
+                "string is an input); certificate name coverage modelled for the harness' own certificates. Two defects found and "
+                "fixed (panic on bracketed IPv6 / non-DNS hosts; Wss:// sent in clear).",
+        "design_ref": "DESIGN.md §5 C12",
+    },
     "C13": {
         "text": "Theorems for every request (any method, scheme, host, port, path, query, version, header list): on an HTTP/1 "
                 "connection the target is origin-form with path/query preserved and '/' for an empty path (authority-form for "
